@@ -6,7 +6,7 @@ import z3
 
 from pyvc import poly
 from pyvc.poly import SV, SB, ite, and_, or_, not_, sv, cmpop, truth
-from pyvc.engine import Engine, SymList, SymMem
+from pyvc.engine import Engine, SymList, SymMem, ObjModel
 from props.funcvc import FuncVC
 from props import simvc
 from contracts import z80spec as Z
@@ -226,3 +226,93 @@ def check_fast_paths(rep, prop, tier):
         if bad:
             rep.violation('%s/%s/bounded' % (prop, fname), 'fast path differs from stepping: %s' % (bad[:3],),
                           {'function': fname, 'observed_vs_expected': bad})
+
+
+# ------------------------------------------------------------ who establishes wf(state)
+def check_wf_establishment(rep, prop):
+    """simutils.get_registers establishes wf(registers) for every input the
+    callers can produce (documented register names; values as the snapshot
+    readers deliver them); the readers deliver IFF in {0,1} and IM in 0..255."""
+    import ast
+    import skoolkit.simutils as SU
+    import skoolkit.snapshot as SN
+    from pyvc.engine import func_ast
+    from props.c09 import tail_assigns, find_block, byte
+    W = poly.W
+    names16 = ('BC', 'DE', 'HL', 'IX', 'IY', 'SP', 'PC', '^BC', '^DE', '^HL', 'MEMPTR')
+    names8 = ('A', 'F', 'I', 'R', '^A', '^F', 'B', 'C', 'D', 'E', 'H', 'L', 'IXh', 'IXl', 'IYh', 'IYl', '^B', '^C', '^D', '^E', '^H', '^L')
+
+    def start(eng):
+        p = eng.path
+        cfg = {}
+        for nm in names16:
+            v = SV(z3.BitVec('in_' + nm.replace('^', 'x'), W), 0, 65535)
+            p.facts.append(z3.And(v.t >= 0, v.t <= 65535))
+            cfg[nm] = v
+        for nm in names8:
+            v = SV(z3.BitVec('in_' + nm.replace('^', 'x'), W), 0, 255)
+            p.facts.append(z3.And(v.t >= 0, v.t <= 255))
+            cfg[nm] = v
+        st = {'im': SV(z3.BitVec('in_im', W), 0, 255), 'iff': SV(z3.BitVec('in_iff', W), 0, 1), 'tstates': SV(z3.BitVec('in_t', W), 0, (1 << 38) - 1)}
+        p.facts.extend([st['im'].t >= 0, st['im'].t <= 255, st['iff'].t >= 0, st['iff'].t <= 1, st['tstates'].t >= 0, st['tstates'].t < (1 << 38)])
+        p.ret = eng.call_function(SU.get_registers, [cfg, st, False])
+
+    def post(p, prove):
+        regs = p.ret.items if isinstance(p.ret, SymList) else None
+        prove('post.length', regs is not None and len(regs) == 30)
+        if regs is None or len(regs) != 30:
+            return
+        for i in range(30):
+            lo, hi = simvc.reg_interval(i)
+            prove('post.wf.' + Z.REGNAMES[i], and_(cmpop('>=', regs[i], lo), cmpop('<=', regs[i], hi)))
+    FuncVC(rep, prop, SU.get_registers, 'skoolkit.simutils.get_registers', Engine(inline_ok=lambda f: False)).run(start, post, None)
+
+    # what the snapshot readers hand over as iff / im
+    def start_z80(eng):
+        p = eng.path
+        hdr = [byte('h%d' % i) for i in range(86)]
+        me = ObjModel(None, name='Z80', cls=SN.Z80)
+        me.attrs['header'] = SymList(hdr, 'header')
+        p.me = me
+        eng.run_stmts(SN.Z80._read, tail_assigns(SN.Z80._read, ('iff1', 'im')), {'self': me}, None)
+
+    def post_rd(p, prove):
+        prove('post.iff_range', and_(cmpop('>=', p.me.attrs.get('iff1'), 0), cmpop('<=', p.me.attrs.get('iff1'), 1)))
+        prove('post.im_range', and_(cmpop('>=', p.me.attrs.get('im'), 0), cmpop('<=', p.me.attrs.get('im'), 255)))
+    FuncVC(rep, prop, SN.Z80._read, 'skoolkit.snapshot.Z80._read[iff]', Engine(inline_ok=lambda f: False)).run(start_z80, post_rd, replay_iff)
+
+    def start_szx(eng):
+        p = eng.path
+        blk = [byte('z%d' % i) for i in range(37)]
+        me = ObjModel(None, name='SZX', cls=SN.SZX)
+        p.me = me
+        body = find_block(SN.SZX._read, lambda t: "b'Z80R'" in t)
+        eng.run_stmts(SN.SZX._read, body, {'self': me, 'block': SymList(blk, 'block')}, None)
+    FuncVC(rep, prop, SN.SZX._read, 'skoolkit.snapshot.SZX._read[iff]', Engine(inline_ok=lambda f: f.__module__ == 'skoolkit')).run(start_szx, post_rd, None)
+
+
+def replay_iff(vals, kind):
+    """A .z80 file whose IFF byte is the model's value: run LD A,I on the simulator built from it."""
+    import io
+    from skoolkit.snapshot import Z80
+    from skoolkit.simulator import Simulator
+    from skoolkit import simutils
+    v = vals.get('h27', 255) & 255
+    z = Z80(ram=[0] * 49152)
+    z.header[27] = z.header[28] = v
+    z.header[32] = 0
+    z.header[33] = 0x80
+    z2 = Z80(bytes(z.data()))
+    ram = z2.ram(-1) if False else z2.ram()
+    sim = simutils.from_snapshot(Simulator, z2)
+    sim.memory[0x8000] = 0xED
+    sim.memory[0x8001] = 0x57
+    sim.run(0x8000)
+    f = sim.registers[1]
+    iff = sim.registers[26]
+    d = []
+    if not 0 <= iff <= 1:
+        d.append(('IFF entered the register array as', iff))
+    if not 0 <= f <= 255:
+        d.append(('F after LD A,I', f))
+    return {'case': {'z80 header byte 27': v}, 'diffs': d}
